@@ -143,6 +143,12 @@ impl BrakingPoints {
 
                     // Exit if the braking point reached or passed the beginning of the path
                     if self.points.last().unwrap().offset <= path_tpc.offset_begin() {
+                        // catch the speed point index up with the abandoned curve, as the loop head would have
+                        while idx > 0
+                            && self.points.last().unwrap().offset <= speed_points[idx].offset
+                        {
+                            idx -= 1;
+                        }
                         break;
                     }
                 }
